@@ -87,6 +87,8 @@ type g3FixOpts struct {
 	perturb   func(kind string)
 	onHandle  func(msg protocol.Message) error
 	recvQueue int
+	// slowTimers: every state timeout is raised to at least one hour
+	slowTimers bool
 	noStart   bool
 }
 
@@ -118,6 +120,18 @@ func newG3Fixture(p *g3Proto, role protocol.ProtocolRole, o g3FixOpts) *g3Fixtur
 				orig := e.TimeoutFunc
 				sc := o.scale
 				e.TimeoutFunc = func() time.Duration { return orig() / time.Duration(sc) }
+			}
+			sm[s] = e
+		}
+	}
+	if o.slowTimers {
+		// runs that are not about time: no state timeout may fire because the machine is slow
+		for s, e := range sm {
+			if e.Timeout > 0 && e.Timeout < time.Hour {
+				e.Timeout = time.Hour
+			}
+			if e.TimeoutFunc != nil {
+				e.TimeoutFunc = func() time.Duration { return time.Hour }
 			}
 			sm[s] = e
 		}
